@@ -178,6 +178,20 @@ func (x wCloseFast) Write(p []byte) (int, error)         { return x.u.Write(p) }
 func (x wCloseFast) Close() error                        { return x.u.doClose() }
 func (x wCloseFast) ReadFrom(r io.Reader) (int64, error) { return x.u.readFrom(r) }
 
+// failingReader yields r's data and then err instead of io.EOF (nil err = plain EOF).
+type failingReader struct {
+	r   io.Reader
+	err error
+}
+
+func (f *failingReader) Read(p []byte) (int, error) {
+	n, e := f.r.Read(p)
+	if e == io.EOF && f.err != nil {
+		return n, f.err
+	}
+	return n, e
+}
+
 // recorder is a user decorator implementing decor.EwmaDecorator.
 type recorder struct {
 	decor.WC
@@ -217,13 +231,23 @@ func runC19Case(c c19Case) (msg, key string) {
 	} else {
 		p = mpb.New(mpb.WithOutput(&out), mpb.WithWidth(60))
 	}
-	rec := &recorder{}
-	rec.WC = decor.WC{}
-	rec.WC.Init()
+	nrec := 1 + c.Wrap%3 // 1..3 moving-average decorators on the bar
+	recs := make([]*recorder, nrec)
 	var opts []mpb.BarOption
 	if c.Ewma {
-		opts = append(opts, mpb.AppendDecorators(wrapDeep(rec, c.Wrap)))
+		var ds []decor.Decorator
+		for i := range recs {
+			recs[i] = &recorder{}
+			recs[i].WC = decor.WC{}
+			recs[i].WC.Init()
+			ds = append(ds, wrapDeep(recs[i], (c.Wrap+i)%4))
+		}
+		opts = append(opts, mpb.AppendDecorators(ds[:1]...))
+		if len(ds) > 1 {
+			opts = append(opts, mpb.PrependDecorators(ds[1:]...))
+		}
 	}
+	rec := recs[0]
 	bar := p.AddBar(c.Total, opts...)
 	defer func() {
 		bar.Abort(true)
@@ -349,11 +373,18 @@ func runC19Case(c c19Case) (msg, key string) {
 				}
 			}
 			want := append([]byte(nil), src.Bytes()...)
+			// the source may fail after its data (a transfer that moved n > 0 bytes and then errored)
+			var srcErr error
+			for _, s := range c.Steps {
+				if s.Err >= 2 {
+					srcErr = errCustom
+				}
+			}
 			t0 := time.Now()
-			n, err := pw.(io.ReaderFrom).ReadFrom(&src)
+			n, err := pw.(io.ReaderFrom).ReadFrom(&failingReader{r: &src, err: srcErr})
 			el := int64(time.Since(t0))
-			if n != int64(len(want)) || err != nil {
-				return fmt.Sprintf("ReadFrom returned (%d,%v), under-layer returned (%d,<nil>)", n, err, len(want)), "result:" + shape
+			if n != int64(len(want)) || err != srcErr {
+				return fmt.Sprintf("ReadFrom returned (%d,%v), under-layer returned (%d,%v)", n, err, len(want), srcErr), "result:" + shape
 			}
 			if !bytes.Equal(u.seen.Bytes(), want) {
 				return "bytes differ across the proxy (ReadFrom)", "bytes:" + shape
@@ -414,7 +445,8 @@ func runC19Case(c c19Case) (msg, key string) {
 	if c.Total > 0 && sum >= c.Total && !bar.Completed() {
 		return fmt.Sprintf("%d bytes of %d transferred but bar not completed", sum, c.Total), "count:" + shape
 	}
-	if c.Ewma {
+	for ri := 0; c.Ewma && ri < len(recs); ri++ {
+		rec = recs[ri]
 		got := rec.get()
 		// calls up to and including the completing one must be delivered
 		must := len(calls)
